@@ -23,10 +23,11 @@ import (
 	"verif/engine/interp"
 )
 
-const (
-	repoDir  = "/repo"
-	verifDir = "/verif"
-)
+const verifDir = "/verif"
+
+// repoDir is /repo; VERIF_REPO overrides it for development runs against a scratch worktree
+// (registered commands never set it).
+var repoDir = "/repo"
 
 type KnownFinding struct {
 	ID       string `json:"id"`
@@ -62,6 +63,9 @@ func main() {
 	os.Setenv("GOFLAGS", "-mod=mod")
 	os.Setenv("GOPROXY", "off")
 	os.Setenv("GOSUMDB", "off")
+	if r := os.Getenv("VERIF_REPO"); r != "" {
+		repoDir = r
+	}
 	if len(os.Args) < 2 {
 		fmt.Fprintln(os.Stderr, "usage: hv check|run|replay ...")
 		os.Exit(2)
